@@ -2,6 +2,7 @@ package main
 
 import (
 	"fmt"
+	"os"
 	"sync"
 	"sync/atomic"
 
@@ -9,20 +10,25 @@ import (
 )
 
 type tierCfg struct {
-	fullLen      int // streams up to this length: every partition with <= kFull cuts
-	kFull        int
-	fullLen2     int // streams up to this length (and > fullLen): every partition with <= 2 cuts
-	radius       int // restricted enumeration: distance to a boundary
-	maxCand      int // restricted enumeration: at most this many candidate positions for pairs
-	singlesAll   int // streams up to this length: every single cut position
-	splitAllLen  int // raw streams up to this length: every 2-write split position (HTTP tunnel)
-	wsSplitAll   int // raw streams up to this length: every 2-write split position (WebSocket)
-	splitRadius  int // cuts around the block boundary for 2-write splits
-	oneByteLimit int // all-1-byte delivery for streams up to this length in the split enumeration
-	wsSinglesAll int // websocket streams up to this length: every single cut position
+	fullLen       int // streams up to this length: every partition with <= kFull cuts
+	kFull         int
+	fullLen2      int // streams up to this length (and > fullLen): every partition with <= 2 cuts
+	radius        int // restricted enumeration: distance to a boundary
+	maxCand       int // restricted enumeration: at most this many candidate positions for pairs
+	singlesAll    int // streams up to this length: every single cut position
+	splitAllLen   int // raw streams up to this length: every 2-write split position (HTTP tunnel)
+	wsSplitAll    int // raw streams up to this length: every 2-write split position (WebSocket)
+	splitRadius   int // cuts around the block boundary for 2-write splits
+	oneByteLimit  int // all-1-byte delivery for streams up to this length in the split enumeration
+	wsSinglesAll  int // websocket streams up to this length: every single cut position
+	bigLen        int // streams longer than this: reduced enumeration (see doJob)
+	httpFull2     int // base64 texts up to this length: every partition with <= 2 cuts
+	httpFull3     int // base64 texts up to this length: every partition with <= 3 cuts
 	wsPairRadius  int // websocket: pairs of cuts within this distance of a message frame boundary
 	wsSplitRadius int // websocket: cuts around the frame boundary for 2-write splits
 }
+
+var debugJobs = os.Getenv("C04_JOBS") != ""
 
 type rtJob struct {
 	seq       []*elem
@@ -223,6 +229,7 @@ func (rt *rtCtx) report(c caseT, w *wire, f *failure) {
 
 func (rt *rtCtx) doJob(j rtJob) {
 	run := rt.run
+	t0 := run.Elapsed()
 	exp := expectAll(j.seq)
 	ws, err := rt.writesFor(j.seq, j.writeEnds)
 	if err != nil {
@@ -251,10 +258,22 @@ func (rt *rtCtx) doJob(j rtJob) {
 	})
 	defer g.End()
 	isHTTP := j.carrier == carHTTP
+	isWS := j.carrier == carWSc2s || j.carrier == carWSs2c
 	one := func(cuts []int, oneByte bool) {
 		// HTTP tunnel: deliveries with >= 2 cuts none of which is the POST|data boundary skip the re-parsing of the POST request
 		fast := isHTTP && len(cuts) >= 2 && cuts[0] != 0
+		if isWS && len(cuts) >= 1 {
+			fast = true // reuse the upgraded connection
+		}
 		f := execCase(w, exp, cuts, oneByte, fast, &st)
+		if f != nil && isWS && fast {
+			// verdicts are only taken from a freshly upgraded connection
+			fast = false
+			f = execCase(w, exp, cuts, oneByte, false, &st)
+			if f == nil {
+				run.AddInt("websocket_reuse_failures_not_confirmed_on_fresh_connection", 1)
+			}
+		}
 		nEval++
 		if nEval&1023 == 0 {
 			g.Touch()
@@ -320,8 +339,6 @@ func (rt *rtCtx) doJob(j rtJob) {
 			}
 		}
 	}
-	isWS := j.carrier == carWSc2s || j.carrier == carWSs2c
-
 	if j.mode == 1 {
 		// write-grouping job: deliveries local to the block boundaries
 		one(nil, false)
@@ -331,6 +348,9 @@ func (rt *rtCtx) doJob(j rtJob) {
 		r := cfg.splitRadius
 		if isWS {
 			r = cfg.wsSplitRadius
+		}
+		if n > cfg.bigLen && r > 3 {
+			r = 3 // streams with a 64 KiB frame or a 128 KiB body: every case moves the whole stream several times
 		}
 		var cand []int
 		for _, b := range w.blocks[:len(w.blocks)-1] {
@@ -389,12 +409,30 @@ func (rt *rtCtx) doJob(j rtJob) {
 		if cfg.kFull > 2 {
 			triplesOnly(w.candidates(4, false))
 		}
-	case n <= cfg.fullLen:
-		enum(allPositions(w.lo, n), cfg.kFull)
-	case n <= cfg.fullLen2:
+	case isHTTP && n <= cfg.httpFull3:
+		enum(allPositions(w.lo, n), 3)
+	case isHTTP && n <= cfg.httpFull2:
 		enum(allPositions(w.lo, n), 2)
 		if cfg.kFull > 2 {
 			triplesOnly(threeCand(w))
+		}
+	case !isHTTP && n <= cfg.fullLen:
+		enum(allPositions(w.lo, n), cfg.kFull)
+	case !isHTTP && n <= cfg.fullLen2:
+		enum(allPositions(w.lo, n), 2)
+		if cfg.kFull > 2 {
+			triplesOnly(threeCand(w))
+		}
+	case n > cfg.bigLen:
+		// streams with a 64 KiB frame or a 128 KiB body
+		sc := w.candidates(cfg.radius, true)
+		if len(sc) > 400 {
+			sc = uniqSorted(append(w.candidates(cfg.radius, false), w.candidates(1, true)...), w.lo, n-1)
+		}
+		singles(sc)
+		pairsOnly(w.candidates(4, false))
+		if cfg.kFull > 2 {
+			triplesOnly(w.candidates(2, false))
 		}
 	default:
 		cand := w.candidates(cfg.radius, true)
@@ -420,6 +458,9 @@ func (rt *rtCtx) doJob(j rtJob) {
 	run.Eval(nEval)
 	rt.count(j.carrier, nEval)
 	rt.merge(&st)
+	if debugJobs {
+		fmt.Printf("JOB %d cases %.0f us/case n=%d %s %s part=%d/%d\n", nEval, (run.Elapsed()-t0).Seconds()*1e6/float64(nEval), n, j.carrier, joinNames(j.seq), j.part, j.parts)
+	}
 }
 
 func (rt *rtCtx) merge(st *b64stat) {
